@@ -1,4 +1,5 @@
 use std::cell::Cell;
+use std::panic::{catch_unwind, resume_unwind, AssertUnwindSafe};
 
 use crate::handle_unwind::handle_unwind;
 use crate::lockable::{Lockable, RawLock, Sharable};
@@ -222,28 +223,44 @@ pub fn scoped_try_read<'a, L: RawLock + Sharable + ?Sized, Key: Keyable, R>(
 	}
 }
 
+/// Unlocks every lock in the list. If unlocking one of them panics, the remaining
+/// locks are still unlocked, and the first panic is resumed afterwards. A lock
+/// whose unlock panics is killed by its own `raw_unlock_*` implementation.
+unsafe fn unlock_all(locks: &[&dyn RawLock], unlock: unsafe fn(&dyn RawLock)) {
+	let mut first_panic = None;
+	for lock in locks {
+		// safety: the caller assumes that these are already locked
+		let result = catch_unwind(AssertUnwindSafe(|| unsafe { unlock(*lock) }));
+		if let Err(panic) = result {
+			first_panic.get_or_insert(panic);
+		}
+	}
+
+	if let Some(panic) = first_panic {
+		resume_unwind(panic);
+	}
+}
+
+/// Unlocks all of the given exclusively locked locks, even if one unlock panics
+pub unsafe fn unlock_all_writes(locks: &[&dyn RawLock]) {
+	unlock_all(locks, |lock| lock.raw_unlock_write());
+}
+
+/// Unlocks all of the given locks with shared access, even if one unlock panics
+pub unsafe fn unlock_all_reads(locks: &[&dyn RawLock]) {
+	unlock_all(locks, |lock| lock.raw_unlock_read());
+}
+
 /// Unlocks the already locked locks in order to recover from a panic
 pub unsafe fn attempt_to_recover_writes_from_panic(locks: &[&dyn RawLock]) {
-	handle_unwind(
-		|| {
-			// safety: the caller assumes that these are already locked
-			locks.iter().for_each(|lock| lock.raw_unlock_write());
-		},
-		// if we get another panic in here, we'll just have to poison what remains
-		|| locks.iter().for_each(|l| l.poison()),
-	)
+	// safety: the caller assumes that these are already locked
+	unlock_all_writes(locks);
 }
 
 /// Unlocks the already locked locks in order to recover from a panic
 pub unsafe fn attempt_to_recover_reads_from_panic(locked: &[&dyn RawLock]) {
-	handle_unwind(
-		|| {
-			// safety: the caller assumes these are already locked
-			locked.iter().for_each(|lock| lock.raw_unlock_read());
-		},
-		// if we get another panic in here, we'll just have to poison what remains
-		|| locked.iter().for_each(|l| l.poison()),
-	)
+	// safety: the caller assumes these are already locked
+	unlock_all_reads(locked);
 }
 
 #[cfg(test)]
